@@ -20,7 +20,7 @@ func repair(s string) string { return string([]rune(s)) }
 
 func roundTrip(id string, rs *zlint.ResultSet) ev.M {
 	m := ev.M{"ev": "RoundTrip", "id": id, "marshalOK": false, "unmarshalOK": false, "sameKeys": false, "sameStatus": false,
-		"sameDetails": false, "sameFlags": false, "stable": false, "lints": len(rs.Results)}
+		"sameDetails": false, "sameFlags": false, "stable": false, "lints": len(rs.Results), "nonASCII": 0, "distinctStatuses": 0}
 	b, err := json.Marshal(rs)
 	if err != nil {
 		return m
@@ -180,6 +180,12 @@ func cmdCodec(args []string) {
 	w.Emit(roundTrip("all-statuses", all))
 	// ---- listings
 	w.Emit(listing("global", g))
+	// a registry that has been listed and then grows: the next listing has a line for every lint again, of every kind
+	for _, ms := range []mockSpec{{Name: "e_verif_late_crl", Kind: "crl", Source: lint.RFC5280}, {Name: "e_verif_late_ocsp", Kind: "ocsp", Source: lint.RFC6960},
+		{Name: "e_verif_late_cert", Kind: "cert", Source: lint.RFC5280}} {
+		registerMock(ms)
+		w.Emit(listing("global-after-registering-"+ms.Name, g))
+	}
 	for i, o := range []lint.FilterOptions{{IncludeSources: lint.SourceList{lint.RFC5280}}, {NameFilter: regexp.MustCompile("crl|ocsp")},
 		{ExcludeSources: lint.SourceList{lint.CABFBaselineRequirements}}, {IncludeSources: lint.SourceList{lint.RFC6960}}} {
 		if r, err := g.Filter(o); err == nil {
